@@ -19,6 +19,8 @@ func lemmaObligations(s *Session, prop, tier string) ([]*Obligation, []interface
 	switch prop {
 	case "C01":
 		obls = append(obls, s.conversionRoundTripLemmas()...)
+	case "C05":
+		obls = append(obls, s.lemmasC05()...)
 	case "C06":
 		obls = append(obls, s.lemmasC06()...)
 	case "C07":
